@@ -111,7 +111,6 @@ void mustache::SystemManager::addSystem(SystemManager::SystemPtr system) {
 void mustache::SystemManager::reorderSystems() {
     MUSTACHE_PROFILER_BLOCK_LVL_0(__FUNCTION__ );
 
-    auto systems_cpy = data_->systems_info;
     std::set<std::string> unplaced_systems_names;
     {
         std::map<std::string, Data::SystemInfo*> map;
@@ -131,6 +130,8 @@ void mustache::SystemManager::reorderSystems() {
         }
     }
 
+    // copy after update_before has been folded into the successors' update_after, so that it takes part in this ordering
+    auto systems_cpy = data_->systems_info;
     std::sort(systems_cpy.begin(), systems_cpy.end(),
               [this](const Data::SystemInfo& a, const Data::SystemInfo& b) {
                   const auto group_prior_a = getGroupPriority(a.config.update_group);
